@@ -19,6 +19,17 @@ def fmt_of(ev):
     return None, None
 
 
+def unwrap_sites(body):
+    return [c for c in walk(body.value) if c.get("k") in ("mcall", "call") and re.search(r"::(unwrap|expect)$", callee(c) or "")]
+
+
+def selftest(C):
+    """Canary for P1 no-unwrap (expected count zero): the scan finds both sites of the positive example."""
+    n = len(unwrap_sites(C.body("zero::unwraps")))
+    if n != 2:
+        raise AnalysisError("C08 canary: unwrap/expect scan found %d of 2 sites" % n)
+
+
 def run(ck, F, tier):
     ck.explanation = (
         "Decided (S): P1 parser totality - every panic-capable construct (MIR asserts, panicking library calls, indexing "
@@ -39,7 +50,7 @@ def run(ck, F, tier):
     a1 = Audit(ck, F, "P1", R, ["alist"], reviewed={}).run()
     ck.floor("P1", "sites in from_alist", len(a1.tracer.sites), 3)
     rb = F.body(R)
-    unw = [c for c in walk(rb.value) if c.get("k") in ("mcall", "call") and re.search(r"::(unwrap|expect)$", callee(c) or "")]
+    unw = unwrap_sites(rb)
     ck.inst("P1", "from_alist:no-unwrap", not unw, unw[0]["sp"] if unw else rb.span,
             "parse/next results are propagated with ok_or_else/map_err + `?` (no unwrap/expect)" if not unw else "unwrap/expect on user-controlled input")
 
